@@ -1,5 +1,7 @@
 import Rbgp.Fsm.Codec
 import Rbgp.Fsm.TimedSpec
+import Rbgp.Fsm.WireCodec
+import Rbgp.Fsm.WireSpec
 namespace Rbgp.C08
 open Rbgp Rbgp.Term Rbgp.Fsm Rbgp.Fsm.Codec Rbgp.Fsm.Timed
 
@@ -84,6 +86,9 @@ def verdictStr : TimedSpec.Verdict → String
 def handler (mode : String) (line : String) : String :=
   match mode with
   | "model" =>
+      match (parse line).bind WireCodec.wireCaseOf? with
+      | some (cfg, h) => toStr (WireCodec.wireObsT true (Wire.run cfg h))
+      | none =>
       match (parse line).bind probeCaseOf? with
       | some outs => toStr (probeObsT (probe outs))
       | none =>
@@ -93,6 +98,15 @@ def handler (mode : String) (line : String) : String :=
   | "oracle" =>
       match parseMany line with
       | some [c, o] =>
+          match WireCodec.wireCaseOf? c with
+          | some (cfg, h) =>
+              match WireCodec.wireObsOf? true o with
+              | some tr =>
+                  match WireSpec.check cfg false true h tr with
+                  | .ok => "ok"
+                  | .fail i cl => s!"fail step={i} clause={cl}"
+              | none => "fail step=0 clause=unparsable-observation"
+          | none =>
           match probeCaseOf? c with
           | some outs =>
               match probeObsOf? o with
